@@ -21,17 +21,22 @@ struct Op {
     bool done = false;
 };
 
-// Invocation/response events are stamped with the scheduler's logical clock. Stamping is eager (response right
-// after the operation's last step, invocation right before its first), which yields the most constrained
-// real-time order consistent with the interleaving: the strongest check (DESIGN 4, note on stamping).
+// Invocation/response events are stamped with the scheduler's logical clock: the response right after the operation's
+// last step, the invocation when the thread executes the operation's first step (cds_verif::stamp_inv - a thread that is
+// descheduled before the first step of its next operation has, observably, not called it yet). This yields the most
+// constrained real-time order consistent with the interleaving: the strongest check (DESIGN 4, note on stamping).
 class History {
 public:
     std::vector<Op> ops;
+    static constexpr size_t c_max_ops = 512;
+    History() { ops.reserve( c_max_ops ); }     // stamp_inv keeps a pointer into the vector
 
     int call( int thread, int op, long arg = 0, long arg2 = 0 )
     {
-        Op o; o.thread = thread; o.op = op; o.arg = arg; o.arg2 = arg2; o.inv = cds_verif::stamp();
+        if ( ops.size() >= c_max_ops ) cds_verif::fail_sig( "engine", "History: more than c_max_ops operations" );
+        Op o; o.thread = thread; o.op = op; o.arg = arg; o.arg2 = arg2;
         ops.push_back( o );
+        cds_verif::stamp_inv( &ops.back().inv );
         return int( ops.size()) - 1;
     }
     void ret( int idx, long res, long res2 = 0 )
